@@ -37,7 +37,8 @@ type Solver struct {
 	Queries   int
 	NSat      int
 	NUnsat    int
-	NUnknown  int
+	NUnknown  int // undecided after the retry
+	Retries   int // queries that timed out once and were retried with a larger budget
 	SolveTime time.Duration
 	errors    []string
 	lastSat   bool
@@ -205,8 +206,22 @@ func (s *Solver) sync() ([]string, error) {
 	}
 }
 
-// Check runs (check-sat). Any error line or unknown is reported as Unknown.
+// Check decides the current assertions. A timeout is retried once with six times the budget (a loaded
+// machine must not turn a decidable query into "unknown"); only then is it reported as unknown.
 func (s *Solver) Check() SatResult {
+	r := s.check1()
+	if r == Unknown && !s.dead && s.timeout > 0 && (s.kind == "z3" || s.kind == "z3-new") && len(s.errors) == 0 {
+		s.send(fmt.Sprintf("(set-option :timeout %d)", 6*s.timeout))
+		s.Retries++
+		s.NUnknown-- // counted again by the retry if it stays undecided
+		s.Queries--
+		r = s.check1()
+		s.send(fmt.Sprintf("(set-option :timeout %d)", s.timeout))
+	}
+	return r
+}
+
+func (s *Solver) check1() SatResult {
 	t0 := time.Now()
 	s.send("(check-sat)")
 	s.Queries++
